@@ -210,10 +210,13 @@ def blue_actions(v) -> List[Dict]:
                 src_wildcard="NONE", dst_wildcard="NONE")
     rule2 = dict(permission="DENY", src_ip="10.9.9.9", dst_ip=IPS["database_server"], src_port="ALL", dst_port="POSTGRES_SERVER",
                  protocol_name="TCP", src_wildcard="0.0.0.255", dst_wildcard="NONE")
+    rule3 = dict(permission="PERMIT", src_ip=IPS["client_2"], dst_ip=IPS["web_server"], src_port="HTTP", dst_port="HTTP",
+                 protocol_name="TCP", src_wildcard="0.0.255.255", dst_wildcard="0.0.0.1")
     if gw == "router_1":
         for pos in (0, 1, 9, 23):
             add("router-acl-add-rule", target_router=gw, position=pos, **rule)
         add("router-acl-add-rule", target_router=gw, position=2, **rule2)
+        add("router-acl-add-rule", target_router=gw, position=3, **rule3)
         add("router-acl-add-rule", target_router="ghost", position=1, **rule)
         for pos in (0, 1, 2, 21, 23):
             add("router-acl-remove-rule", target_router=gw, position=pos)
@@ -225,6 +228,8 @@ def blue_actions(v) -> List[Dict]:
                 firewall_port_direction=direction, position=1)
         add("firewall-acl-add-rule", target_firewall_nodename=gw, firewall_port_name="internal", firewall_port_direction="inbound",
             position=0, **rule2)
+        add("firewall-acl-add-rule", target_firewall_nodename=gw, firewall_port_name="external", firewall_port_direction="outbound",
+            position=2, **rule3)
         add("firewall-acl-remove-rule", target_firewall_nodename=gw, firewall_port_name="internal",
             firewall_port_direction="inbound", position=21)
     add("node-account-add-user", node_name="database_server", username="eve", password="pw9", is_admin=False)
@@ -283,7 +288,7 @@ def _blue(v):
         "include_num_access": v.get("access", False), "include_nmne": v.get("nmne", True),
         "file_system_requires_scan": v.get("scan_fs", scan), "services_requires_scan": v.get("scan_svc", scan),
         "applications_requires_scan": v.get("scan_app", scan),
-        "num_ports": 3, "ip_list": [IPS[h] for h in HOSTS], "wildcard_list": ["0.0.0.1", "0.0.0.255"],
+        "num_ports": 3, "ip_list": [IPS[h] for h in HOSTS], "wildcard_list": list(v.get("wildcards", ["0.0.0.1", "0.0.0.255"])),
         "port_list": ["HTTP", "POSTGRES_SERVER"], "protocol_list": ["ICMP", "TCP", "UDP"], "num_rules": 5,
     }
     if v.get("traffic", False):
@@ -357,8 +362,8 @@ def _variants():
     out = []
     base = dict(topo="routed", flatten=False, masking=False, scan=True, nmne=True, traffic=False, access=False, dur=1, ep_len=6)
     out.append(dict(base))
-    out.append(dict(base, flatten=True, masking=True, scan=False, traffic=True, access=True))
-    out.append(dict(base, topo="firewall", masking=True, traffic=True))
+    out.append(dict(base, flatten=True, masking=True, scan=False, traffic=True, access=True, wildcards=["0.0.0.1"]))
+    out.append(dict(base, topo="firewall", masking=True, traffic=True, wildcards=["0.0.0.1", "0.0.0.255", "0.0.255.255"]))
     out.append(dict(base, topo="firewall", flatten=True, scan=False, nmne=False, access=True, dur=2))
     out.append(dict(base, masking=True, nmne=False, dur=2, bandwidth=0.01))
     out.append(dict(base, flatten=True, dur=0, sticky=False, traffic=True))
